@@ -3,6 +3,7 @@ import ast
 
 import sympy as sp
 
+from .. import cfg as C
 from .. import credit as CR
 from .. import idioms as ID
 from .. import summary as SM
@@ -64,6 +65,16 @@ def check_fold(ctx, cls, fn, spec):
     ncls = model.node_class_of_algo(cls.name)
     folds = ID.find_folds(fn)
     rets = [r for r in ast.walk(fn) if isinstance(r, ast.Return) and r.value is not None]
+    if len(folds) == 1 and len(rets) > 1:
+        # `return None` under the guard 'no winner' is the empty-candidate case spelled out, not a second recommendation
+        g0 = C.CFG(fn)
+        keep = []
+        for r in rets:
+            if isinstance(r.value, ast.Constant) and r.value.value is None and \
+                    any(a == ("is", folds[0].best, "None") for a, t, lab, e in C.facts_at(g0, g0.node_of(r))):
+                continue
+            keep.append(r)
+        rets = keep
     if len(folds) != 1 or len(rets) != 1:
         ctx.violation("R07-ARGMAX", cls.file, qual, "recommendation", "expected one arg-max fold and one return, found %d fold(s), %d return(s): %s"
                       % (len(folds), len(rets), [f.describe() for f in folds]), fn.lineno)
@@ -314,10 +325,22 @@ def import_once(ctx, names):
     R04-ONCE / R04-NODE obligations for these algorithms, re-reported."""
     from . import c04
     tmp = Ctx(ctx.prop, ctx.tier, ctx.seed, ctx.model)
+    from .. import callsites as CS
+    from .. import effects as E
+    eff = E.Effects(ctx.model)
+    cache = {}
+
+    def fcs(cname, fn):
+        k = (cname, fn.name)
+        if k not in cache:
+            cache[k] = CS.FnCtx(ctx.model, eff, cname, fn)
+        return cache[k]
     for cls in c04.algos(ctx.model):
         if cls.name in names:
             info = CR.credit_paths(ctx.model, cls.name)
-            c04.check_once(tmp, cls, info)
+            designators, reward = c04.check_once(tmp, cls, info)
+            # ... and on the cell whose point was handed out (pairing), or the 'best evaluated' point has someone else's reward
+            tmp.attempt("R04-PAIR", cls.file, "%s.pull" % cls.name, "pairing", c04.check_pair, tmp, cls, designators, fcs)
     c04.check_node_classes(tmp)
     for o in tmp.obligations:
         ctx.obligations.append(dict(o, rule=o["rule"].replace("R04", "R07")))
@@ -326,6 +349,22 @@ def import_once(ctx, names):
         if ncls_ok:
             ctx.add_finding(f.rule.replace("R04", "R07"), f.file, f.qual, f.construct, f.why, f.line)
     ctx.functions |= tmp.functions
+
+
+def import_scores(ctx):
+    """'Highest score' presupposes that the scores are what they are documented to be: the mean reward of a learner (POO, C10's
+    R10-MEAN) and the mean validation reward of a validated point (GPO, C09's R09-VALID), re-reported."""
+    from . import c09, c10
+    for mod, fn_name, pat, rule in ((c10, "check_means", "R10-MEAN", "R07-SCORE"), (c09, "check_validation", "R09-VALID", "R07-SCORE")):
+        tmp = Ctx(ctx.prop, ctx.tier, ctx.seed, ctx.model)
+        tmp.attempt(pat, "PyXAB/algos", fn_name, "scores", getattr(mod, fn_name), tmp)
+        for o in tmp.obligations:
+            if o["rule"] == pat:
+                ctx.obligations.append(dict(o, rule=rule))
+        for f in tmp.findings:
+            if f.rule == pat:
+                ctx.add_finding(rule, f.file, f.qual, f.construct, f.why, f.line)
+        ctx.functions |= tmp.functions
 
 
 def run(ctx):
@@ -337,6 +376,7 @@ def run(ctx):
         ctx.attempt("R07-EVAL", cls.file, name, "evaluated candidates", check_eval, ctx, cls, f)
     check_wrappers(ctx)
     import_once(ctx, list(SPEC))
+    import_scores(ctx)
     return dict(
         explanation=(
             "ARGMAX: get_last_point of DOO, SOO, SequOOL, StoSOO, StroquOOL is recognised as an arg-max fold (direction max, seed -inf, "
